@@ -3,7 +3,7 @@
 tier="${1:-quick}"
 cd "$(dirname "$(readlink -f "$0")")/.." || exit 2
 rc=0
-for id in $(/venv/bin/python -c "import json;print(' '.join(c['property_id'] for c in json.load(open("MANIFEST.json"))['checks']))"); do
+for id in $(/venv/bin/python -c "import json;print(' '.join(c['property_id'] for c in json.load(open('MANIFEST.json'))['checks']))"); do
   out=$(./check "$id" "$tier" 2>&1); code=$?
   echo "$id exit=$code $(echo "$out" | grep -E '^property=' | head -1)"
   if [ $code -ne 0 ]; then echo "$out" | grep -E 'VIOLATION|signature|detail|HARNESS|KNOWN' | head -8; rc=1; fi
